@@ -588,6 +588,25 @@ Definition run_passes (ps : list (expr -> option expr)) (e : expr) : expr :=
   fold_left (fun acc post => tr post acc) ps e.
 Definition optimize (e : expr) : expr := run_passes passes (rrc e).
 
+(** Expressions without pre-existing scope nodes (what symbol resolution produces when no
+    [at_operation()] is involved). *)
+Fixpoint no_scope (e : expr) : bool :=
+  match e with
+  | ENone | EAll | EVisibleHeads | EVisibleHeadsOrReferenced | ERoot | EForks | EFilter _
+  | ECommits _ => true
+  | EAncestors x _ _ | EDescendants x _ | EHeads x | ERoots x | EForkPoint x | EMergePoint x
+  | EBisect x | ELatest x _ | EAsFilter x | EPresent x | ENotIn x => no_scope x
+  | ERange a b _ _ | EDagRange a b | EReachable a b | ECoalesce a b | EUnion a b
+  | EIntersection a b | EDifference a b => no_scope a && no_scope b
+  | EHeadsRange a b _ f => no_scope a && no_scope b && no_scope f
+  | EWithinReference _ _ | EWithinVisibility _ _ => false
+  end.
+
+(** Every commit except the root (position 0) has a parent. *)
+Definition rootedb (G : graph) : bool :=
+  forallb (fun x => Nat.eqb x 0 || negb (match parents G x with [] => true | _ => false end))
+          (seq 0 (length G)).
+
 (* ------------------------------------------------------------------ structural equality *)
 
 Definition lnat_eqb := list_eqb Nat.eqb.
@@ -690,7 +709,8 @@ Definition check_case (c : case) : N :=
   let n := length (w_graph W) in
   let x := case_ctx c in
   let o := optimize (c_expr c) in
-  let c1 := wf_graphb (w_graph W) && lnat_eqb (P (c_order c)) (rev (seq 0 n)) in
+  let c1 := wf_graphb (w_graph W) && rootedb (w_graph W)
+            && lnat_eqb (P (c_order c)) (rev (seq 0 n)) in
   let c2 := match c_opt c with Some o' => expr_eqb o o' | None => false end in
   let c3 := olist_eqb (eval W x o) (c_res_opt c) in
   let c4 := olist_eqb (eval W x (rrc (c_expr c))) (c_res_unopt c) in
